@@ -68,6 +68,14 @@ def main():
                     ReflexiveTransitiveAccesss=(True, True, False, False),
                     GlobalAccess=(True, True, True, False))[acc]
         res = []
+        # two independent statements of the logic's frame class must agree: the tableau's frame rules and the model's
+        # access class (what finish() closes the relation under)
+        rules_need = (refl, trans, sym, serial and not refl)
+        if tuple(bool(x) for x in need) != tuple(bool(x) for x in rules_need):
+            res.append(dict(logic=Meta.name, worlds=[], pairs=[], ok=False, why='frame-class-mismatch', steps=[], flags=[False] * 3,
+                            branch_worlds=[],
+                            got=f'model access class {acc} = (reflexive, transitive, symmetric, serial) {tuple(map(bool, need))}',
+                            expected=f'frame rules {sorted(names & {"Reflexive", "Transitive", "Symmetric", "Serial"})} = {tuple(map(bool, rules_need))}'))
         for worlds, pairs in cases_for(Meta.name, rng):
             rec = dict(logic=Meta.name, worlds=worlds, pairs=[list(p) for p in pairs], ok=True, why='')
             try:
